@@ -12,13 +12,18 @@ EXTENDS JtDtypes, JtArray, Json, IOUtils
 
 Rows == ndJsonDeserialize(IOEnv.VERIF_ROWS)
 
+\* a category is one of the exported names, or "User": a user-defined category described by [strings, patterns]
+\* (r.u1 / r.u2); user categories are only nested with Shaped or with themselves (the implementation intersects the
+\* dtype ENTRIES, and what a pattern has in common with a name is not documented)
+AcceptsX(d, u, cls) == IF d = "User" THEN UserAccepts(u.strings, u.patterns, cls.chars) ELSE Accepts(d, cls)
+NestOKX(d1, d2) == IF d1 = "User" \/ d2 = "User" THEN TRUE ELSE NestOK(d1, d2)
 NestExpected(r) ==
   LET p1 == ParseSpec(r.s1)   p2 == ParseSpec(r.s2)
       bothvar == VarIndex(p1.dims) # 0 /\ VarIndex(p2.dims) # 0
-  IN IF ~NestOK(r.d1, r.d2) \/ bothvar THEN [build |-> "ValueError", vec |-> << >>]
+  IN IF ~NestOKX(r.d1, r.d2) \/ bothvar THEN [build |-> "ValueError", vec |-> << >>]
      ELSE [build |-> "ok",
            vec |-> [i \in DOMAIN r.probes |->
-                      IF NestAccepts(r.d1, r.d2, r.probes[i].cls)
+                      IF AcceptsX(r.d1, r.u1, r.probes[i].cls) /\ AcceptsX(r.d2, r.u2, r.probes[i].cls)
                          /\ CheckShape(p2.dims \o p1.dims, r.probes[i].shape, EmptyMemo, EmptyFn, NoLabel).r = "T"
                       THEN "T" ELSE "F"]]
 
